@@ -1,10 +1,13 @@
 #!/bin/bash
 # usage: dev_mut.sh <file-relative> <sed-expr> [dev_run args...]
-set -e
 D=$(mktemp -d /tmp/mutXXXX)
 cp -r /repo/anytree $D/anytree
 sed -i "$2" $D/$1
-diff -u /repo/$1 $D/$1 | head -30 || true
+diff -u /repo/$1 $D/$1 | grep '^[-+]' | grep -v '^+++\|^---'
 shift; shift
-PYVC_REPO=$D python3-vt /verif/dev_run.py "$@" 2>&1 | tail -15
+PYVC_REPO=$D python3-vt /verif/dev_run.py "$@" > $D/out.txt 2>&1
+grep -c "NOT ACCEPTED" $D/out.txt
+grep "NOT ACCEPTED" $D/out.txt | sed 's/.*anytree\/node\/[a-z]*.py://' | cut -c1-150 | head -6
+grep "struct: \['" $D/out.txt | cut -c1-300
+grep "^total\|Traceback\|Error" $D/out.txt | head
 rm -rf $D
